@@ -225,6 +225,8 @@ def main():
         masked = {"86ff219": "extern align(0) is now also rejected when embedded, by the lcm repair 79fa87e",
                   "d2db2a1": "the glob pattern it escaped was replaced by a directory walk in 079114d",
                   "89ad505": "add_module itself rejects a declared path that is already registered since d9e0ed9",
+                  "a0de194": "the written form of every type is measured right before syn parses it since 3d4d3b7, which also bounds generic-looking names",
+                  "72d95f2": "cannot be taken back alone: a0de194 uses the constant it introduced (the tree does not compile without it)",
                   "879caed": "names bound to a vftable type that is still to be generated resolve right away since e16907c, so no pass is left in which generating it is the only progress (its own regression replay holds without it)"}
         # Which property found the defect a repair is for: from the known-findings file.
         found_by = {}
